@@ -9,7 +9,7 @@ from . import common
 
 NAME = "U-stmt"
 TOOL = "verus"
-PROPS = ["C18", "C01", "C13", "C16"]
+PROPS = ["C18", "C01", "C13", "C16", "C17"]
 RLIMIT = 300
 TRUSTED = ["verus 0.2026.09.13 + z3", "A-fmt (R4)", "every generator the dispatcher calls is a stub that appends one event to a ghost log (their own texts: U-loops, U-if, U-switch, U-csleep, ...)",
            "the source-listing block at the head of the function (insert_code: comments only) is a stub without effect on the log"]
@@ -39,6 +39,7 @@ pub struct GeneratorState<'a> {
     pub current_function: Option<String>,
     pub functions_code: HashMap<String, AssemblyCode>,
     pub log: Ghost<Seq<Ev>>,
+    pub live_purges: Ghost<int>,             // flushes of the deferred ++/-- made while the accumulator was marked live (they must leave it alone)
     pub at_function_entry: Ghost<bool>,      // nothing has been generated yet for the function being compiled
 }
 pub open spec fn entering(g: &GeneratorState) -> bool {
@@ -62,7 +63,7 @@ pub open spec fn stmt_ev(s: Statement) -> Seq<Ev> decreases s {
         Statement::Strobe(e) => seq![Ev::Strobe(e)],
         Statement::Store(e) => seq![Ev::Expr(e, false), Ev::Transfer(operand_of(e), false)],
         // the code that computes a value to be loaded IS the load: it is generated protected
-        Statement::Load(e) => seq![Ev::Expr(e, true), Ev::Transfer(operand_of(e), true)],
+        Statement::Load(e) => seq![Ev::Expr(e, true), Ev::Transfer(operand_of(e), true), Ev::Purge],
         Statement::CSleep(n) => seq![Ev::CSleep(n)],
         Statement::Goto(l) => seq![Ev::Goto(l@)],
         Statement::LocalVarDecl => Seq::<Ev>::empty(),
@@ -77,16 +78,17 @@ pub open spec fn block_ev(v: Seq<StatementLoc>, n: int) -> Seq<Ev> decreases v, 
 STUBS = """
     #[verifier::external_body] fn insert_source_comment_block(&mut self, pos: usize) -> (res: Result<(), Error>)
         ensures final(self).compiler_state == old(self).compiler_state, final(self).log@ == old(self).log@, final(self).acc_in_use == old(self).acc_in_use, final(self).tmp_in_use == old(self).tmp_in_use,
-            final(self).flags == old(self).flags, final(self).carry_flag_ok == old(self).carry_flag_ok, final(self).at_function_entry@ == old(self).at_function_entry@, final(self).protected == old(self).protected,
+            final(self).flags == old(self).flags, final(self).carry_flag_ok == old(self).carry_flag_ok, final(self).at_function_entry@ == old(self).at_function_entry@, final(self).protected == old(self).protected, final(self).live_purges@ == old(self).live_purges@,
     { unimplemented!() }
     #[verifier::external_body] fn purge_deferred_plusplus_and_savey(&mut self) -> (res: Result<(), Error>)
         ensures final(self).compiler_state == old(self).compiler_state, final(self).protected == old(self).protected, res is Ok ==> final(self).log@ == old(self).log@.push(Ev::Purge),
+            final(self).live_purges@ == old(self).live_purges@ + (if old(self).acc_in_use { 1int } else { 0int }), final(self).acc_in_use == old(self).acc_in_use,
             // flushing a deferred ++/-- emits code only if there is one: at a function's entry there is none (the flags belief may only change towards what that code left)
             old(self).at_function_entry@ ==> final(self).flags == old(self).flags && final(self).carry_flag_ok == old(self).carry_flag_ok && final(self).at_function_entry@,
             !old(self).at_function_entry@ ==> !final(self).at_function_entry@,
     { unimplemented!() }
     #[verifier::external_body] pub(crate) fn label(&mut self, l: &str) -> (res: Result<(), Error>)
-        ensures final(self).compiler_state == old(self).compiler_state, final(self).acc_in_use == old(self).acc_in_use, final(self).tmp_in_use == old(self).tmp_in_use, final(self).protected == old(self).protected,
+        ensures final(self).compiler_state == old(self).compiler_state, final(self).acc_in_use == old(self).acc_in_use, final(self).tmp_in_use == old(self).tmp_in_use, final(self).protected == old(self).protected, final(self).live_purges@ == old(self).live_purges@,
             res is Ok ==> final(self).log@ == old(self).log@.push(Ev::Label(l@)),
             final(self).flags is Unknown && !final(self).carry_flag_ok, final(self).at_function_entry@ == false,      // a label forgets the belief (generate_asm.rs: label())
     { unimplemented!() }
@@ -118,6 +120,9 @@ pub fn generate_statement(&mut self, code: &StatementLoc) -> (res: Result<(), Er
         ensures
             final(self).compiler_state == old(self).compiler_state,
             !final(self).protected, //@ C18:statement-leaves-protection-off
+            final(self).live_purges@ >= old(self).live_purges@,
+            // the value a load() leaves in A survives the deferred side effects of its own expression (`load(t[Y]++)`, `load(a++)` on split-port memory)
+            (res is Ok && code.statement is Load) ==> final(self).live_purges@ >= old(self).live_purges@ + 1, //@ C18,C17,C01:load-flushes-deferred-effects-with-the-accumulator-live
             res is Ok ==> final(self).log@ =~= old(self).log@ + gen_ev(*code), //@ C18,C01:statements-generated-once-in-source-order
             res is Ok ==> (final(self).at_function_entry@ ==> final(self).flags is Unknown && !final(self).carry_flag_ok),
 """
@@ -174,7 +179,7 @@ def build(repo):
     f.before(r"^\s*match &code\.statement \{", "        proof { assert(self.at_function_entry@ ==> (self.flags is Unknown && !self.carry_flag_ok)); //@ C01,C02:function-entry-forgets-flags\n        }")
     f.loop_spec(1, r"^for __n in 0\.\.statements\.len\(\)$", """
                     invariant
-                        self.compiler_state == old(self).compiler_state, !self.protected,
+                        self.compiler_state == old(self).compiler_state, !self.protected, self.live_purges@ >= old(self).live_purges@,
                         self.log@ =~= log0 + seq![Ev::Purge] + label_ev(*code) + block_ev(statements@, __n as int), //@ C18,C01:block-statements-in-order
                         self.at_function_entry@ ==> (self.flags is Unknown && !self.carry_flag_ok),
 """)
@@ -183,7 +188,7 @@ def build(repo):
         gens.append("""    #[verifier::external_body] fn %(name)s(&mut self, %(params)s) -> (res: %(ret)s)
         requires (!old(self).acc_in_use && !old(self).tmp_in_use) || %(free_ok)s, //@ C01:statement-generated-with-free-accumulator-and-scratch
             %(extra_req)s,
-        ensures final(self).compiler_state == old(self).compiler_state, final(self).protected == old(self).protected, res is Ok ==> final(self).log@ == old(self).log@.push(%(ev)s), res is Ok ==> %(extra_ens)s,
+        ensures final(self).compiler_state == old(self).compiler_state, final(self).protected == old(self).protected, final(self).live_purges@ >= old(self).live_purges@, res is Ok ==> final(self).log@ == old(self).log@.push(%(ev)s), res is Ok ==> %(extra_ens)s,
             final(self).at_function_entry@ == false,
     { unimplemented!() }""" % {"name": name, "params": params, "ret": ret, "ev": ev, "extra_req": extra_req, "extra_ens": extra_ens, "free_ok": "true" if name == "generate_load_store_statement" else "false"})
     text = common.PRELUDE + common.header_comment(NAME, cuts) + "verus! {\n" + (SPECS % {"types": "\n".join(tys)}) + fm.text() + \
